@@ -182,6 +182,20 @@ fn totp_code(step: u64, ct: u64, right: bool) -> u32 {
 async fn server_attempt(w: &mut World, a: &mut Acct, path: &str, ct: u64, wrong: bool, wrong_second: bool) -> String {
     let d = std::time::Duration::from_secs(ct);
     match path {
+        "ldap" => {
+            let Ok(ev) = kanidmd_lib::idm::event::LdapAuthEvent::from_parts(uuid_e(a.n), (if wrong { PW_BAD } else { PW_OK }).to_string()) else { return "other".into() };
+            let mut txn = match w.idms.auth().await {
+                Ok(t) => t,
+                Err(_) => return "other".into(),
+            };
+            let r = txn.auth_ldap(&ev, d).await;
+            let _ = txn.commit();
+            match r {
+                Ok(Some(_)) => "ok".into(),
+                Ok(None) => "none".into(),
+                Err(_) => "other".into(),
+            }
+        }
         "unix" => {
             let Some(entry) = w.entry(uuid_e(a.n)).await else { return "other".into() };
             let ev = UnixUserAuthEvent { ident: Identity::from_impersonate_entry_readwrite(entry), target: uuid_e(a.n), cleartext: (if wrong { PW_BAD } else { PW_OK }).to_string() };
@@ -364,6 +378,76 @@ async fn server_history(tr: &mut Tracer, w: &mut World, rng: &mut Rng, n: u64, l
     true
 }
 
+/// Model-generated interleavings of entry paths on ONE credential (KAuthSoftLockPaths): accounts
+/// without a POSIX password whose primary credential is password / password+TOTP, with or without
+/// primary-credential fallback; the first event is the first use of the credential since the
+/// server started.
+async fn paths_histories(tr: &mut Tracer, behaviours: &[J]) -> bool {
+    let mut w = World::new().await;
+    let t0 = std::time::Duration::from_secs(T0 + 5);
+    if w.modify(UUID_DOMAIN_INFO, ModifyList::new_purge_and_set(Attribute::LdapAllowUnixPwBind, Value::Bool(true)), t0).await.is_err() {
+        return false;
+    }
+    let pol = kanidm_lib_crypto::CryptoPolicy::danger_test_minimum();
+    let step = 30u64;
+    let mut es: Vec<EntryInitNew> = Vec::new();
+    let mut creds: Vec<Uuid> = Vec::new();
+    let mut fbgroup = EntryInitNew::new();
+    fbgroup.add_ava(Attribute::Class, EntryClass::Object.to_value());
+    fbgroup.add_ava(Attribute::Class, EntryClass::Group.to_value());
+    fbgroup.add_ava(Attribute::Class, EntryClass::AccountPolicy.to_value());
+    fbgroup.add_ava(Attribute::Name, Value::new_iname("verif_fallback_on"));
+    fbgroup.add_ava(Attribute::Uuid, Value::Uuid(uuid_e(2999)));
+    fbgroup.add_ava(Attribute::AllowPrimaryCredFallback, Value::new_bool(true));
+    for (j, b) in behaviours.iter().enumerate() {
+        let n = 3000 + j as u64;
+        let kind = b["kind"].as_str().unwrap_or("pw");
+        let totp = if kind == "pwtotp" { Some(ka::totp_new(TOTP_SECRET.to_vec(), step, "sha256", 6)) } else { None };
+        let Ok(cred) = ka::cred_build(&pol, PW_OK, totp, None, t0) else { return false };
+        creds.push(ka::cred_uuid(&cred));
+        let mut e = World::person(n, &format!("sp{n}"), true);
+        e.add_ava(Attribute::PrimaryCredential, Value::new_credential("primary", cred));
+        es.push(e);
+        if b["fb"] == 1 {
+            fbgroup.add_ava(Attribute::Member, Value::Refer(uuid_e(n)));
+        }
+    }
+    es.push(fbgroup);
+    for chunk in es.chunks(300) {
+        if let Err(e) = w.create(chunk.to_vec(), t0).await {
+            eprintln!("TOOL-ERROR cannot create path-history accounts: {e:?}");
+            return false;
+        }
+    }
+    for (j, b) in behaviours.iter().enumerate() {
+        let n = 3000 + j as u64;
+        let kind: &'static str = if b["kind"] == "pwtotp" { "pwtotp" } else { "pw" };
+        let mut a = Acct { n, name: format!("sp{n}"), kind, cred: creds[j], step, token: None };
+        // shift by whole days: keeps every model time aligned with UTC days and TOTP steps
+        let shift = DAY * (j as u64 + 1);
+        let evs = b["evs"].as_array().cloned().unwrap_or_default();
+        let (polname, win) = if kind == "pwtotp" { ("totp", step) } else { ("password", DAY) };
+        tr.emit(&json!({"a": "reset", "pol": polname, "w": win, "ckind": kind, "fb": b["fb"], "proto": 1, "server": 1, "paths": 1,
+                        "kind": kind, "evs": evs, "st": st_json(&None)}));
+        for (i, ev) in evs.iter().enumerate() {
+            let path = ev["path"].as_str().unwrap_or("auth").to_string();
+            let wrong = ev["wrong"] == 1;
+            let ct = ev["ct"].as_u64().unwrap_or(T0) + shift;
+            // password+TOTP through the web path: a wrong guess is alternately a wrong code, or a right code and a wrong password
+            let (w1, w2) = if kind == "pwtotp" && path == "auth" { (wrong && i % 2 == 0, wrong && i % 2 == 1) } else { (wrong, false) };
+            let res = server_attempt(&mut w, &mut a, &path, ct, w1, w2).await;
+            let other = res.starts_with("other");
+            let note = if other { res.clone() } else { String::new() };
+            let res = if other { "refused".to_string() } else { res };
+            let after = ka::server_softlock(&w.idms, a.cred).await;
+            let valid = after.as_ref().map(|p| p.valid).unwrap_or(true);
+            tr.emit(&json!({"a": "attempt", "path": path, "ct": ct, "exp": -1, "wrong": wrong as u8, "res": res, "other": other as u8, "note": note,
+                            "v": valid as u8, "st": st_json(&after)}));
+        }
+    }
+    true
+}
+
 pub fn run(o: &Opts) -> i32 {
     let out = o.str("out", "/verif/work/C28/obs.ndjson");
     let mut tr = Tracer::create(&out);
@@ -377,7 +461,12 @@ pub fn run(o: &Opts) -> i32 {
             if r["a"] != "reset" {
                 continue;
             }
-            if r["server"] == 1 {
+            if r["paths"] == 1 {
+                let b = json!({"kind": r["ckind"], "fb": r["fb"], "evs": r["evs"]});
+                if !rt.block_on(paths_histories(&mut tr, &[b])) {
+                    return 2;
+                }
+            } else if r["server"] == 1 {
                 n += 1;
                 let ok = rt.block_on(async {
                     let mut w = World::new().await;
@@ -392,6 +481,14 @@ pub fn run(o: &Opts) -> i32 {
         }
         println!("OBSERVED lines={} out={out}", tr.finish());
         return 0;
+    }
+    if let Some(pf) = o.get("paths") {
+        let bs = read_ndjson(pf);
+        let rt = runtime();
+        if !rt.block_on(paths_histories(&mut tr, &bs)) {
+            eprintln!("TOOL-ERROR path histories failed");
+            return 2;
+        }
     }
     if let Some(bf) = o.get("behaviours") {
         for b in read_ndjson(bf) {
